@@ -98,4 +98,99 @@ theorem mu_updPWs_lt (cfg : Cfg) (s : State) (i : Nat) (p : PW → Bool) (f : PW
   simp only [mu, updPWs]
   omega
 
+theorem hasCall_mem {s : State} {c : Nat} {p : Call → Bool} (h : hasCall s c p = true) :
+    ∃ x ∈ s.calls, x.id = c ∧ p x = true := by
+  simp only [hasCall, List.any_eq_true, Bool.and_eq_true, decide_eq_true_eq] at h
+  exact h
+
+theorem hasPW_mem {s : State} {i : Nat} {p : PW → Bool} (h : hasPW s i p = true) :
+    ∃ x ∈ s.writers, x.pid = i ∧ p x = true := by
+  simp only [hasPW, List.any_eq_true, Bool.and_eq_true, decide_eq_true_eq] at h
+  exact h
+
+/-- `candidates` lists every internal event that can be enabled -/
+theorem candidates_complete (cfg : Cfg) (s s' : State) (e : Event) (hint : e.internal = true)
+    (hstep : step cfg s e = some s') : e ∈ candidates s := by
+  have callCase : ∀ (c : Nat) (e : Event), (∃ x ∈ s.calls, x.id = c) →
+      (∀ x : Call, x.id = c → e ∈ ([.enter x.id, .batch x.id, .ret x.id] ++
+        [Res.nil, .ctxErr, .other].map (Event.early x.id) ++
+        [Res.nil, .writeErrors, .ctxErr].map (Event.leave x.id) : List Event)) → e ∈ candidates s := by
+    intro c e ⟨x, hx, hc⟩ h
+    simp only [candidates, List.mem_append, List.mem_flatMap]
+    exact Or.inl (Or.inl ⟨x, hx, by simpa [List.mem_append, or_assoc] using h x hc⟩)
+  have pwCase : ∀ (i : Nat) (e : Event), (∃ x ∈ s.writers, x.pid = i) →
+      (∀ x : PW, x.pid = i → e ∈ ([.get x.pid, .complete x.pid] ++ [Outcome.ok, .temp, .perm].map (Event.attempt x.pid) : List Event)) →
+      e ∈ candidates s := by
+    intro i e ⟨x, hx, hc⟩ h
+    simp only [candidates, List.mem_append, List.mem_flatMap]
+    exact Or.inr ⟨x, hx, by simpa [List.mem_append, or_assoc] using h x hc⟩
+  cases e with
+  | callBegin c ms mf => simp [Event.internal] at hint
+  | ctxCancel c => simp [Event.internal] at hint
+  | closeBegin => simp [Event.internal] at hint
+  | metaReq c => simp [Event.internal] at hint
+  | metaRel c => simp [Event.internal] at hint
+  | closeMark => simp [Event.internal] at hint
+  | closeReturn => simp [Event.internal] at hint
+  | enter c =>
+    simp only [step, Option.ite_none_right_eq_some] at hstep
+    obtain ⟨x, hx, hc, _⟩ := hasCall_mem hstep.1
+    exact callCase c _ ⟨x, hx, hc⟩ (fun y hy => by simp [hy])
+  | early c r =>
+    simp only [step, Option.ite_none_right_eq_some] at hstep
+    obtain ⟨x, hx, hc, hp⟩ := hasCall_mem hstep.1
+    apply callCase c _ ⟨x, hx, hc⟩
+    intro y hy
+    cases r <;> simp [hy] at hp ⊢
+  | batch c =>
+    simp only [step] at hstep
+    split at hstep
+    · simp at hstep
+    · rename_i x hfind
+      have hm := List.mem_of_find?_eq_some hfind
+      have hx := List.find?_some hfind
+      simp only [Bool.and_eq_true, decide_eq_true_eq] at hx
+      exact callCase c _ ⟨x, hm, hx.1.1.1⟩ (fun y hy => by simp [hy])
+  | leave c r =>
+    simp only [step, Option.ite_none_right_eq_some] at hstep
+    obtain ⟨x, hx, hc, hp⟩ := hasCall_mem hstep.1
+    apply callCase c _ ⟨x, hx, hc⟩
+    intro y hy
+    cases r <;> simp [hy] at hp ⊢
+  | ret c =>
+    simp only [step, Option.ite_none_right_eq_some] at hstep
+    obtain ⟨x, hx, hc, _⟩ := hasCall_mem hstep.1
+    exact callCase c _ ⟨x, hx, hc⟩ (fun y hy => by simp [hy])
+  | timer b =>
+    simp only [step, Option.ite_none_right_eq_some] at hstep
+    have hmem : b ∈ s.awaiters := by simpa using hstep.1
+    simp only [candidates, List.mem_append, List.mem_map]
+    exact Or.inl (Or.inr ⟨b, hmem, rfl⟩)
+  | get i =>
+    simp only [step] at hstep
+    split at hstep
+    · rename_i h
+      obtain ⟨x, hx, hc, _⟩ := hasPW_mem h
+      exact pwCase i _ ⟨x, hx, hc⟩ (fun y hy => by simp [hy])
+    · split at hstep
+      · rename_i h
+        obtain ⟨x, hx, hc, _⟩ := hasPW_mem h
+        exact pwCase i _ ⟨x, hx, hc⟩ (fun y hy => by simp [hy])
+      · simp at hstep
+  | attempt i o =>
+    simp only [step, Option.ite_none_right_eq_some] at hstep
+    obtain ⟨x, hx, hc, _⟩ := hasPW_mem hstep.1
+    apply pwCase i _ ⟨x, hx, hc⟩
+    intro y hy
+    cases o <;> simp [hy]
+  | complete i =>
+    simp only [step] at hstep
+    split at hstep
+    · rename_i p hfind
+      have hm := List.mem_of_find?_eq_some hfind
+      have hx := List.find?_some hfind
+      simp only [Bool.and_eq_true, decide_eq_true_eq] at hx
+      exact pwCase i _ ⟨p, hm, hx.1⟩ (fun y hy => by simp [hy])
+    · simp at hstep
+
 end KV.WriterClose
